@@ -1,17 +1,25 @@
 package subj
 
-import "verifharness/lts"
+import (
+	"strings"
+
+	"verifharness/lts"
+)
 
 // LTSSubjects lists the adapters that can replay a TLC transition system.
 func LTSSubjects(variant string) map[string]lts.Subject {
+	div := 1
+	if strings.Contains(variant, "coarse") { // variants "coarse", "cmpcoarse": priorities compared as p/2
+		div = 2
+	}
 	return map[string]lts.Subject{
-		"xlist": XList{},
-		"deque": Deque{},
-		"heap":  Heap{Cmp: variant == "cmp"},
-		"pq3":   PQ{Cmp: variant == "cmp", K: 3},
-		"pq4":   PQ{Cmp: variant == "cmp", K: 4},
-		"pq5":   PQ{Cmp: variant == "cmp", K: 5},
-		"tree4": Tree{Variant: variant, N: 4},
+		"xlist":    XList{},
+		"deque":    Deque{},
+		"heap":     Heap{Cmp: variant == "cmp"},
+		"pq3":      PQ{Cmp: strings.HasPrefix(variant, "cmp"), K: 3, Div: div},
+		"pq4":      PQ{Cmp: strings.HasPrefix(variant, "cmp"), K: 4, Div: div},
+		"pq5":      PQ{Cmp: strings.HasPrefix(variant, "cmp"), K: 5, Div: div},
+		"tree4":    Tree{Variant: variant, N: 4},
 		"typedmap": TypedMap{Variant: variant},
 	}
 }
